@@ -32,6 +32,15 @@ CHECKS = {
              '(e.g. 12.7 -> 1.27) is not detected and not claimed.',
         technique=TECH + ' (QF_UFLRA), all selection paths explored with solver-decided feasibility',
         design='3/C02'),
+    'C03': dict(
+        text='Bounded solver verdict on the real Jacobian / Gradient / directionaldiff executed on affine maps with symbolic '
+             'coefficient tensors: for ALL coefficients the result has shape (m,n) / (m,n,k) with entry [i,j] / [i,j,l] equal to the '
+             'coefficient at the same index (a swapped axis is a counterexample because A is not symmetric); Gradient has shape (n,) '
+             '(0-d for n=1) and equals the single Jacobian row; directionaldiff equals c.v/|v|; size mismatch raises ValueError. '
+             'Driven end to end (short step sequence) and at row level with the default generators. n<=3, m<=3, k<=2 (4,4,3 thorough).',
+        note='Trusted: z3 (QF_LRA); exact arithmetic; affine maps only (accuracy on nonlinear maps is outside the claim).',
+        technique=TECH + ' (QF_LRA)',
+        design='3/C03'),
     'C05': dict(
         text='Bounded solver verdict over all x, all positive base steps and every value of the nominal-step log(): every '
              'argument the five derivative classes pass to the user function is admissible (one-sided / mirrored / exact real '
